@@ -880,6 +880,12 @@ func c05R3(c *Ctx, rule string) {
 			if mc, ok := cc.Args[1].(*ssa.MakeClosure); ok {
 				if unwrapWrapper(mc.Fn.(*ssa.Function)) == fn {
 					subscribed = true
+					// the initial snapshot is taken after subscribing: a change that lands between a
+					// snapshot and a later subscription is counted locally and never published
+					for _, snap := range findCalls(f, "(*"+modPath+"/server/cluster.State).LocalNode", "(*"+modPath+"/server/cluster.State).Nodes") {
+						c.check(dominatesInstr(call, snap), rule, fnName(f)+"/subscribed-before-snapshot", snap.Pos(), "the subscription precedes the snapshot of the local node that is published initially",
+							"the local node is snapshotted at "+p.pos(snap.Pos())+" before the subscription at "+p.pos(call.Pos())+": an upstream that connects or disconnects in between is never advertised (or stays advertised)")
+					}
 				}
 			}
 		}
